@@ -129,8 +129,14 @@ func (m *MTree) replace(s Site, n *refcbor.Item) {
 	}
 }
 
-var structFaultKinds = []string{"algtext", "arr2bstr", "digitstr", "rewidth", "typeswap", "elemswap", "bucketmove", "dupkey", "nilswap", "tagwrap", "untag", "indef",
+var structFaultKinds = []string{"algother", "algtext", "arr2bstr", "digitstr", "rewidth", "typeswap", "elemswap", "bucketmove", "dupkey", "nilswap", "tagwrap", "untag", "indef",
 	"keyreorder", "unprot-edit", "arity", "emptybstr", "intedit", "strgrow", "param-inject"}
+
+// otherAlgs: algorithm numbers this library has no code for (registered:
+// RS256/384/512, ES256K, HMAC, AES-MAC, ...) and numbers at every head-width
+// boundary of the CBOR integer encoding.
+var otherAlgs = []int64{-257, -257, -258, -259, -256, -255, -47, -46, -45, -44, -24, -25, -26, 4, 5, 6, 7, 14, 15, 23, 24, 25, 26, 255, 256,
+	-65535, -65536, -65537, 65535, 65536, -1 << 32, -1<<32 - 1, 1<<32 - 1, 1 << 32, -1 << 63, 1<<63 - 1, -1, 1, -9, -19, -53}
 
 func pickSite(t *tape.Tape, sites []Site, ok func(Site) bool) (Site, bool) {
 	var cand []int
@@ -491,6 +497,28 @@ func StructFault(t *tape.Tape, in []byte, kind string) (out []byte, applied stri
 			n = refcbor.Int(int64(s.It.Arg%1000) + 1)
 		}
 		m.replace(s, n)
+	case "algother":
+		// the alg parameter of a protected header replaced by the number of
+		// another algorithm: registered ones this library has no code for
+		// (RS256 and friends, HMAC, AES-MAC), values at every head-width
+		// boundary, private-use ones
+		s, found := pickSite(t, sites, func(s Site) bool {
+			if !s.Inner || s.Parent == nil || s.Parent.Major != refcbor.MMap || s.Idx%2 != 1 || !s.It.IsInt() {
+				return false
+			}
+			k := s.Parent.Elems[s.Idx-1]
+			kv, ok := k.Int64()
+			return k.IsInt() && ok && kv == 1
+		})
+		if !found {
+			return nil, "", false
+		}
+		v, _ := s.It.Int64()
+		n := otherAlgs[t.Choose(len(otherAlgs), "structfault.algother")]
+		if n == v {
+			n = -257
+		}
+		m.replace(s, refcbor.Int(n))
 	case "algtext":
 		// the alg parameter of a protected header respelt as the registered
 		// NAME of the algorithm (a text string is a legal alg value; this
